@@ -112,7 +112,7 @@ Fixpoint tr_ty (t : gty) : option ty :=
   | GNewType m n x => option_map (TNewType (wid N m n)) (tr_ty x)
   | GAlias m n x => option_map (TAlias (wid N m n)) (tr_ty x)
   | GAliasStr m n body =>
-      match rref N (remove_all (m +++ "."%string) body) (Some m) with
+      match rref N (remove_lead (m +++ "."%string) body) (Some m) with
       | Some (TRef c) => Some (TAliasStr (wid N m n) c)
       | _ => None
       end
